@@ -107,6 +107,18 @@ def plan_for(tier: str, seed: int, i: int) -> dict:
             ops.append({"op": k, "oid": base + (1,)})
         else:
             ops.append({"op": k, "oid": base, "bulk": rng.choice([1, 5, 50])})
+    # length sweep: one OID of 90..134 single-octet arcs, so that PDU / binding-list / message lengths cross the BER
+    # short/long form boundary (127/128) for every request type
+    lrng = rng_for(seed, ID, tier + ":len", i)
+    if lrng.random() < 0.2:
+        long_oid = (1, 3) + (1,) * (88 + i % 45)
+        lk = lrng.choice([k for k in ("get", "getnext", "set", "bulkget") if k in kinds])
+        if lk == "bulkget":
+            ops.append({"op": lk, "scalars": [], "repeaters": [long_oid], "maxrep": lrng.choice([0, 1, 10])})
+        elif lk == "set":
+            ops.append({"op": lk, "oid": long_oid, "val": ("int", lrng.choice([0, 1, 255]))})
+        else:
+            ops.append({"op": lk, "oid": long_oid})
     xrng = rng_for(seed, ID, tier + ":x", i)
     if xrng.random() < 0.25:
         # read-modify-write: a value object RETURNED by the client is handed back to it in a SET
@@ -141,10 +153,13 @@ def plan_for(tier: str, seed: int, i: int) -> dict:
     clock["epoch"] = rng.choice([0, 1, 100, 127, 128, 200, 255, 256, 30000, 32767, 32768, 2**23 - 2, 2**23, 10**9,
                                  1_790_000_000, 2**31 - 5000, 2**31, 2**31 + 1, 4_102_444_800, 2**32 + 7])
     eng_len = rng.choice([5, 5, 12, 17, 32, rng.randrange(5, 33)])
+    agent_engine_id = b"\x80" + gen.gen_bytes(rng, eng_len - 1)
+    if lrng.random() < 0.1:
+        agent_engine_id = b"\x80\x00" + b"\x00" * lrng.choice([10, 12, 13, 24]) + b"\x01"    # legal: a long run of zero octets
     return {"prop": ID, "proto": proto, "protos": protos, "mib": sorted(mib.items()), "ops": ops, "clock": clock,
             "context_name": gen.gen_bytes(rng, rng.choice([0, 0, 1, 8, 32])) if version == "v3" else b"",
             "engine_id_cfg": gen.gen_bytes(rng, rng.choice([5, 12, 32])) if version == "v3" and rng.random() < 0.3 else b"",
-            "agent_engine_id": b"\x80" + gen.gen_bytes(rng, eng_len - 1), "ctx_echo": rng.random() < 0.3, "ctx_other": rng.random() < 0.15}
+            "agent_engine_id": agent_engine_id, "ctx_echo": rng.random() < 0.3, "ctx_other": rng.random() < 0.15}
 
 
 def valid(plan: dict) -> bool:
